@@ -65,6 +65,10 @@ func WithGlobalTx(ctx context.Context, gc *GtxConfig, business CallbackWithCtx) 
 	defer func() {
 		var err error
 		deferErr := recover()
+		if deferErr != nil && re == nil {
+			// a business panic must surface to the caller, it is not a success
+			re = fmt.Errorf("business panic: %v", deferErr)
+		}
 		// no need to do second phase if propagation is some type e.g. NotSupported.
 		if IsGlobalTx(ctx) {
 			// business maybe to throw panic, so need to recover it here.
